@@ -1033,6 +1033,13 @@ func (c *Client) DialToSMTPClientWithContext(ctxDial context.Context) (*smtp.Cli
 		return nil, err
 	}
 
+	// The context deadline only covers the dial itself. Put a deadline on the connection, so that a
+	// server that stops responding during greeting, HELO/EHLO, STARTTLS or SMTP AUTH cannot block us
+	if err = connection.SetDeadline(time.Now().Add(c.connTimeout)); err != nil {
+		_ = connection.Close()
+		return nil, fmt.Errorf("failed to set connection deadline: %w", err)
+	}
+
 	client, err := smtp.NewClient(connection, c.host)
 	if err != nil {
 		return nil, err
@@ -1104,6 +1111,8 @@ func (c *Client) CloseWithSMTPClient(client *smtp.Client) error {
 	if client == nil || !client.HasConnection() {
 		return nil
 	}
+	// The QUIT must not wait forever (or fail on a deadline that expired while the connection was idle)
+	_ = client.UpdateDeadline(c.connTimeout)
 	if err := client.Quit(); err != nil {
 		// The server did not acknowledge the QUIT (or could not be reached anymore). We still need
 		// to release the connection, otherwise it would stay open until the process ends.
@@ -1542,6 +1551,11 @@ func (c *Client) checkConn(client *smtp.Client) error {
 		return ErrNoActiveConnection
 	}
 
+	// Extend the deadline first, so that the NOOP is covered by it as well
+	if err := client.UpdateDeadline(c.connTimeout); err != nil {
+		return ErrDeadlineExtendFailed
+	}
+
 	c.mutex.RLock()
 	noNoop := c.noNoop
 	c.mutex.RUnlock()
@@ -1549,10 +1563,6 @@ func (c *Client) checkConn(client *smtp.Client) error {
 		if err := client.Noop(); err != nil {
 			return ErrNoActiveConnection
 		}
-	}
-
-	if err := client.UpdateDeadline(c.connTimeout); err != nil {
-		return ErrDeadlineExtendFailed
 	}
 	return nil
 }
